@@ -8,12 +8,13 @@ Require Import GV.Spec.LineAdvSpec GV.Model.LineWr GV.Proofs.LineWrProofs GV.Pro
 Import ListNotations.
 
 (* ---------------------------------------------------------------------------------------------
-   1. advance_correct — the opcode selection of generate_row (code as of /repo 56e0acc, i.e. after
-   fix eea5f40 of F9 and of the special opcode > 255 for line_range >= 244, both of which this check
-   reproduced on the earlier tree).
+   1. advance_correct — the opcode selection of generate_row (code as of /repo a8af08f, i.e. after
+   fix eea5f40 of F9 and of the special opcode > 255 for line_range >= 244, and fix c8c5891 of the
+   overflowing `special + op_advance * line_range` fit test, all of which this check reproduced on the
+   earlier trees).
    For EVERY LineEncoding with the documented precondition line_base <= 0 < line_base + line_range
    (enc_ok: line_base in -128..0, line_range in 1..255, min_inst_len >= 1, max_ops >= 1), both build
-   modes, every i64 line advance and every operation advance inside the writer's own u64 arithmetic,
+   modes, every i64 line advance and EVERY u64 operation advance (no arithmetic-range hypothesis left),
    the instructions emitted (special only / advance_line + special / const_add_pc + special /
    advance_pc + special or copy) never panic — in particular `op_advance - op_range` never underflows
    and no debug assertion fails —, contain only special opcodes in 13..255, and executed on the DWARF
@@ -21,7 +22,6 @@ Import ListNotations.
    advance op_adv (address/op_index incl. VLIW), and append exactly one row. *)
 Theorem advance_correct : forall (dbg : bool) (l : lenc) (ladv : Z) (oadv : N),
   enc_ok l -> i64 ladv ->
-  (oadv * le_line_range l + le_line_range l + 12 < 18446744073709551616)%N ->
   exists insns,
     advance_insns dbg l ladv oadv = Ok insns /\
     Forall special_ok insns /\
@@ -35,7 +35,6 @@ Proof. exact LineWrProofs.advance_correct. Qed.
    encodings (line_range 255, line_base -128, VLIW) *)
 Example advance_correct_hyps_default :
   enc_ok (mkLenc 1 1 true (-5) 14) /\ i64 (-300) /\
-  (600 * 14 + 14 + 12 < 18446744073709551616)%N /\
   regs_ok (params_of (mkLenc 1 1 true (-5) 14)) (init_regs (params_of (mkLenc 1 1 true (-5) 14))).
 Proof. unfold enc_ok, i64, regs_ok; cbn; lia. Qed.
 Example advance_correct_hyps_extreme :
@@ -51,15 +50,11 @@ Example advance_insns_sample_250 :
   advance_insns false (mkLenc 1 1 true (-128) 250) 115 0 = Ok [IAdvanceLine 115; ICopy].
 Proof. vm_compute. reflexivity. Qed.
 
-(* outside the writer's own arithmetic range (op_advance * line_range overflows u64): checked builds
-   panic, unchecked builds wrap and fold a wrong advance into a special opcode (known finding) *)
-Theorem advance_refuted_mul_overflow :
-  enc_ok lenc_100 /\
-  advance_insns true lenc_100 0 big_oadv = Panic /\
-  advance_insns false lenc_100 0 big_oadv = Ok [ISpecial 98] /\
-  fst (run (params_of lenc_100) (map (denote 4) [ISpecial 98]) (init_regs (params_of lenc_100)))
-    <> [op_adv (params_of lenc_100) (Z.of_N big_oadv) (init_regs (params_of lenc_100))].
-Proof. exact LineWrProofs.advance_refuted_mul_overflow. Qed.
+(* the former overflow witness (operation advance 2^64/100 + 1 with line_range 100) now takes DW_LNS_advance_pc *)
+Example advance_insns_sample_huge :
+  forall dbg, advance_insns dbg (mkLenc 1 1 true (-1) 100) 0 184467440737095517
+              = Ok [IAdvancePc 184467440737095517; ICopy].
+Proof. intros []; vm_compute; reflexivity. Qed.
 
 (* ---------------------------------------------------------------------------------------------
    2. LineProgram::new accepts exactly its documented precondition (F9 repaired by eea5f40). *)
@@ -165,8 +160,9 @@ Proof. exact LineWrSeqProofs.seq_reset. Qed.
    PROVED (program_roundtrip_partial): the instruction-level half — for every program created by
    LineProgram::new with a documented encoding, and every script of begin_sequence /
    set_address / row+generate_row / end_sequence calls that respects script_ok (offsets do not decrease
-   and are multiples of min_inst_len, op_index < max_ops, the operation pointer does not go back, lines
-   < 2^63, u64 arithmetic in range, set_address only at op_index 0), the writer succeeds, emits only
+   and are multiples of min_inst_len, op_index < max_ops, the operation pointer does not go back, and the
+   operation advance `address_advance * max_ops + op_index` fits a u64 — the one remaining known finding;
+   ANY u64 line numbers, set_address at any op_index), the writer succeeds, emits only
    special opcodes 13..255, and the emitted instruction list executed on the DWARF state machine yields
    exactly the rows the script means (address = previous address + offset difference, i.e. sequence base
    + offset since the base; all other registers verbatim; end_sequence rows; registers reset).
@@ -210,29 +206,32 @@ Theorem add_directory_keeps_rows : forall p d p' id,
   add_directory p d = Ok (p', id) -> same_rows p p'.
 Proof. exact add_directory_same_rows. Qed.
 
-(* outside script_ok the faithful model is wrong (known findings; witnesses by vm_compute): *)
-(* set_address after a row with op_index <> 0 *)
-Theorem set_address_vliw_refuted :
-  enc_ok lenc_vliw /\
-  exists p', apply_rops false (fresh lenc_vliw) ops_setaddr_vliw = Ok p' /\
-    rows_of (params_of lenc_vliw) (map (denote 4) (p_insns p')) <>
-    fst (meaning 4 (params_of lenc_vliw) (init_regs (params_of lenc_vliw), 0%N) ops_setaddr_vliw).
-Proof. exact LineWrSeqProofs.set_address_vliw_refuted. Qed.
+(* the inputs that were refutation witnesses before fixes 4a025e8 and 64c2c71 now read back:
+   line 20 -> 2^64-1 -> 3, and set_address in the middle of a VLIW instruction *)
+Example repaired_witnesses_read_back :
+  (exists p', apply_rops true (fresh lenc_default)
+                [RBegin (Some 4096%N); RRow (prow 0 0 20); RRow (prow 4 0 18446744073709551615);
+                 RRow (prow 5 0 3); REnd 8 0] = Ok p' /\
+     rows_of (params_of lenc_default) (map (denote 4) (p_insns p')) =
+     fst (meaning 4 (params_of lenc_default) (init_regs (params_of lenc_default), 0%N)
+            [RBegin (Some 4096%N); RRow (prow 0 0 20); RRow (prow 4 0 18446744073709551615);
+             RRow (prow 5 0 3); REnd 8 0])) /\
+  (exists p', apply_rops true (fresh lenc_vliw)
+                [RBegin (Some 4096%N); RRow (prow 0 1 7); RSetAddr 8192; RRow (prow 1 0 8); REnd 2 0] = Ok p' /\
+     rows_of (params_of lenc_vliw) (map (denote 4) (p_insns p')) =
+     fst (meaning 4 (params_of lenc_vliw) (init_regs (params_of lenc_vliw), 0%N)
+            [RBegin (Some 4096%N); RRow (prow 0 1 7); RSetAddr 8192; RRow (prow 1 0 8); REnd 2 0])).
+Proof. split; (eexists; split; [vm_compute; reflexivity | vm_compute; reflexivity]). Qed.
 
-(* line numbers >= 2^63 *)
-Theorem big_line_refuted_debug :
-  generate_row true (set_row (prow 0 0 9223372036854775808) (fresh lenc_default)) = Panic.
-Proof. exact big_line_debug_panics. Qed.
-Theorem big_line_refuted_release :
-  exists p', apply_rops false (fresh lenc_default) ops_big_line = Ok p' /\
-    rows_of (params_of lenc_default) (map (denote 4) (p_insns p')) <>
-    fst (meaning 4 (params_of lenc_default) (init_regs (params_of lenc_default), 0%N) ops_big_line).
-Proof. exact big_line_release_refuted. Qed.
+(* the remaining known finding, outside script_ok: address_advance * max_ops overflows u64 in op_advance *)
+Theorem op_advance_overflow_refuted :
+  op_advance true lenc_vliw (prow 9223372036854775808 0 7) (prow 0 0 7) = Panic /\
+  op_advance false lenc_vliw (prow 9223372036854775808 0 7) (prow 0 0 7) = Ok 0%N.
+Proof. split; vm_compute; reflexivity. Qed.
 
 (* statement pins *)
 Check (advance_correct : forall (dbg : bool) (l : lenc) (ladv : Z) (oadv : N),
   enc_ok l -> i64 ladv ->
-  (oadv * le_line_range l + le_line_range l + 12 < 18446744073709551616)%N ->
   exists insns,
     advance_insns dbg l ladv oadv = Ok insns /\ Forall special_ok insns /\
     forall ver r, regs_ok (params_of l) r ->
